@@ -341,30 +341,8 @@ func (s *blobSide) stop(wait time.Duration) (clean bool) {
 	return clean && closed
 }
 
-// waitHandled blocks until bp has handled n messages or the deadline passed /
-// abort was closed.
-func (bp *blobProto) waitHandled(n int, d time.Duration, abort <-chan struct{}) bool {
-	return waitUntil2(d, abort, func() bool { return bp.handledCount() >= n })
-}
-
-func waitUntil2(d time.Duration, abort <-chan struct{}, cond func() bool) bool {
-	deadline := time.Now().Add(d)
-	sleep := 20 * time.Microsecond
-	for {
-		if cond() {
-			return true
-		}
-		select {
-		case <-abort:
-			return cond()
-		default:
-		}
-		if time.Now().After(deadline) {
-			return cond()
-		}
-		time.Sleep(sleep)
-		if sleep < time.Millisecond {
-			sleep *= 2
-		}
-	}
+// waitHandled blocks until bp has handled n messages; gives up on abort or when
+// progress stalls for d.
+func (bp *blobProto) waitHandled(n int, d time.Duration, abort <-chan struct{}, progress progressFn) bool {
+	return waitCond(d, abort, progress, func() bool { return bp.handledCount() >= n })
 }
